@@ -190,7 +190,7 @@ def run_live(desc, out):
     elif which == "trades":
         kw.update(max_live_trade_count=1, multi_order_trades=False)
     st = ScriptedStrategy(tr, {"actions": []}, market_filter={}, name="L0", **kw)
-    w = live.LiveWorld([st], transaction_limit=rng.choice((0, 5)) if which == "txlimit" else None)
+    w = live.LiveWorld([st], transaction_limit=rng.choice((0, 5)) if which == "txlimit" else None, async_place=rng.random() < 0.3)
     tr.framework = w.fw
     try:
         if which == "execution":
